@@ -3,14 +3,24 @@
 //!
 //!   sni gen   <vectors.ndjson> <out.ndjson> <seed> <spellings>   abstract vectors (from TLC, Sni_gen.cfg) ->
 //!                                                                 concrete requests -> real outcome
+//!   sni chain <chain.ndjson> <out.ndjson> <seed> <stride>         connection scenarios (behaviour x scenario, from TLC,
+//!                                                                 Sni_conngen.cfg) replayed on the REAL chain
+//!                                                                 TLS acceptor -> info channel (info/tls.rs) ->
+//!                                                                 TlsConnectionInfoLayer's service -> ValidateSNI -> app
+//!                                                                 over a real in-memory TLS handshake (env C20_CERTS = dir
+//!                                                                 with cert.pem / key.pem); every `stride`-th line, offset by seed
 //!   sni rerun <records.ndjson> <out.ndjson>                       re-executes the concrete part `c` of records
+//!                                                                 (chain records: the whole connection scenario)
 //!
 //! One output record per executed request:
 //!   {"i":n, "v":{ver,hosthdr,auth,sni,tls}, "c":{ver,host,has_host,uri,tls,sni,has_sni,name,alt},
 //!    "o":{kind:"forwarded"|"rejected"|"panicked"|"inner_error", validated:bool, saw_tls:bool, err:string}}
 //! The harness decides nothing: SniObs.tla (TLC) evaluates the C20 clauses on every record.
+use std::collections::BTreeMap;
 use std::convert::Infallible;
+use std::future::Future;
 use std::io::{BufRead, BufReader};
+use std::pin::Pin;
 use std::panic::{catch_unwind, AssertUnwindSafe};
 use std::sync::{Arc, Mutex};
 use std::task::{Context, Poll};
@@ -21,6 +31,10 @@ use hyperdriver::server::conn::tls::sni::{SNIMiddlewareError, ValidateSNI, Valid
 use rand::rngs::StdRng;
 use rand::{Rng, SeedableRng};
 use serde_json::{json, Value};
+use hyperdriver::server::conn::tls::TlsConnectionInfoLayer;
+use hyperdriver::server::conn::AcceptExt as _;
+use hyperdriver::stream::tls::TlsHandshakeStream as _;
+use tower::make::Shared;
 use tower::{Layer, Service};
 use vh::trace::TraceOut;
 
@@ -196,8 +210,308 @@ fn instantiate(v: &Value, rng: &mut StdRng) -> Value {
     json!({
         "ver": v["ver"], "host": host.clone().unwrap_or_default(), "has_host": host.is_some(),
         "uri": uri, "tls": v["tls"], "sni": sni.clone().unwrap_or_default(), "has_sni": sni.is_some(),
-        "alpn": alpn, "name": name, "alt": alt, "other": oth,
+        "alpn": alpn, "name": name, "alt": alt, "other": oth, "mode": "direct",
     })
+}
+
+// ------------------------------------------------------------------------------------------------
+// chain mode: real TLS handshake, real info channel, TlsConnectionInfoLayer -> ValidateSNI -> app
+
+/// What the application saw, per request id (header x-rid).
+#[derive(Clone, Default)]
+struct AppLog(Arc<Mutex<BTreeMap<String, (bool, bool, String)>>>);
+
+impl Service<http::Request<()>> for AppLog {
+    type Response = http::Response<()>;
+    type Error = Infallible;
+    type Future = std::future::Ready<Result<http::Response<()>, Infallible>>;
+    fn poll_ready(&mut self, _: &mut Context<'_>) -> Poll<Result<(), Infallible>> {
+        Poll::Ready(Ok(()))
+    }
+    fn call(&mut self, req: http::Request<()>) -> Self::Future {
+        let rid = req.headers().get("x-rid").map(|v| v.to_str().unwrap().to_string()).unwrap_or_default();
+        let t = req.extensions().get::<TlsConnectionInfo>();
+        self.0.lock().unwrap().insert(
+            rid,
+            (
+                t.is_some(),
+                t.map(|t| t.validated_server_name).unwrap_or(false),
+                t.and_then(|t| t.server_name.clone()).unwrap_or_default(),
+            ),
+        );
+        std::future::ready(Ok(http::Response::new(())))
+    }
+}
+
+#[derive(Debug)]
+struct AcceptAnyCert(Arc<rustls::crypto::CryptoProvider>);
+
+impl rustls::client::danger::ServerCertVerifier for AcceptAnyCert {
+    fn verify_server_cert(
+        &self,
+        _: &rustls::pki_types::CertificateDer<'_>,
+        _: &[rustls::pki_types::CertificateDer<'_>],
+        _: &rustls::pki_types::ServerName<'_>,
+        _: &[u8],
+        _: rustls::pki_types::UnixTime,
+    ) -> Result<rustls::client::danger::ServerCertVerified, rustls::Error> {
+        Ok(rustls::client::danger::ServerCertVerified::assertion())
+    }
+    fn verify_tls12_signature(
+        &self,
+        m: &[u8],
+        c: &rustls::pki_types::CertificateDer<'_>,
+        d: &rustls::DigitallySignedStruct,
+    ) -> Result<rustls::client::danger::HandshakeSignatureValid, rustls::Error> {
+        rustls::crypto::verify_tls12_signature(m, c, d, &self.0.signature_verification_algorithms)
+    }
+    fn verify_tls13_signature(
+        &self,
+        m: &[u8],
+        c: &rustls::pki_types::CertificateDer<'_>,
+        d: &rustls::DigitallySignedStruct,
+    ) -> Result<rustls::client::danger::HandshakeSignatureValid, rustls::Error> {
+        rustls::crypto::verify_tls13_signature(m, c, d, &self.0.signature_verification_algorithms)
+    }
+    fn supported_verify_schemes(&self) -> Vec<rustls::SignatureScheme> {
+        self.0.signature_verification_algorithms.supported_schemes()
+    }
+}
+
+struct TlsCfg {
+    server: Arc<rustls::ServerConfig>,
+    client: Arc<rustls::ClientConfig>,
+}
+
+fn tls_cfg() -> TlsCfg {
+    let dir = std::env::var("C20_CERTS").expect("env C20_CERTS (directory with cert.pem and key.pem)");
+    let provider = Arc::new(rustls::crypto::ring::default_provider());
+    let _ = rustls::crypto::ring::default_provider().install_default();
+    let (_, cert) = pem_rfc7468::decode_vec(&std::fs::read(format!("{dir}/cert.pem")).expect("cert.pem")).expect("cert pem");
+    let key_pem = std::fs::read(format!("{dir}/key.pem")).expect("key.pem");
+    let (label, key) = pem_rfc7468::decode_vec(&key_pem).expect("key pem");
+    let key = match label {
+        "PRIVATE KEY" => rustls::pki_types::PrivateKeyDer::Pkcs8(key.into()),
+        "RSA PRIVATE KEY" => rustls::pki_types::PrivateKeyDer::Pkcs1(key.into()),
+        "EC PRIVATE KEY" => rustls::pki_types::PrivateKeyDer::Sec1(key.into()),
+        o => panic!("unknown key type {o}"),
+    };
+    let mut server = rustls::ServerConfig::builder()
+        .with_no_client_auth()
+        .with_single_cert(vec![rustls::pki_types::CertificateDer::from(cert)], key)
+        .expect("server config");
+    server.alpn_protocols = vec![b"h2".to_vec(), b"http/1.1".to_vec()];
+    let mut client = rustls::ClientConfig::builder()
+        .dangerous()
+        .with_custom_certificate_verifier(Arc::new(AcceptAnyCert(provider)))
+        .with_no_client_auth();
+    client.alpn_protocols = vec![b"h2".to_vec(), b"http/1.1".to_vec()];
+    TlsCfg { server: Arc::new(server), client: Arc::new(client) }
+}
+
+type ReqFut = Pin<Box<dyn Future<Output = Result<http::Response<()>, SNIMiddlewareError<Infallible>>> + Send>>;
+
+/// Replays one connection scenario. `chain` = {beh:[{e,r}], trace:[[status;3]], sni:"name"|"" , reqs:[c;3]}.
+/// Returns per request (kind, validated, saw_tls, sni_seen, err, done_after).
+async fn run_chain(chain: &Value, cfg: &TlsCfg) -> Vec<Value> {
+    let (client, incoming) = hyperdriver::stream::duplex::pair();
+    let acceptor = hyperdriver::server::conn::Acceptor::from(incoming).with_tls(cfg.server.clone());
+    let sni = chain["sni"].as_str().unwrap().to_string();
+    let ccfg = cfg.client.clone();
+    // the client side of the handshake runs in its own task; the server side only moves when `conn` is polled
+    let client_task = tokio::spawn(async move {
+        let stream = client.connect(1 << 16).await.expect("duplex connect");
+        let name = if sni.is_empty() {
+            rustls::pki_types::ServerName::IpAddress(std::net::IpAddr::from([127, 0, 0, 1]).into())
+        } else {
+            rustls::pki_types::ServerName::try_from(sni).expect("sni is a dns name")
+        };
+        tokio_rustls::TlsConnector::from(ccfg).connect(name, stream).await
+    });
+    let mut conn = acceptor.accept().await.expect("accept");
+    let app = AppLog::default();
+    let mut make = TlsConnectionInfoLayer::new().layer(Shared::new(ValidateSNI.layer(app.clone())));
+    let mut svc = Service::call(&mut make, &conn).await.expect("make service");
+
+    let reqs = chain["reqs"].as_array().unwrap();
+    let n = reqs.len();
+    let mut futs: Vec<Option<ReqFut>> = (0..n).map(|_| None).collect();
+    let mut result: Vec<Option<(String, String)>> = vec![None; n]; // (kind, err)
+    let mut done_after: Vec<i64> = vec![0; n];
+    let mut client_task = Some(client_task);
+    let mut client_stream = None;
+    for (k, ev) in chain["beh"].as_array().unwrap().iter().enumerate() {
+        let k = k as i64 + 1;
+        let r = ev["r"].as_u64().unwrap() as usize;
+        match ev["e"].as_str().unwrap() {
+            "S" => {
+                let c = &reqs[r - 1];
+                let mut req = http::Request::builder()
+                    .version(version(c["ver"].as_str().unwrap()))
+                    .uri(c["uri"].as_str().unwrap())
+                    .header("x-rid", format!("r{r}"))
+                    .body(())
+                    .expect("harness builds a valid request");
+                if c["has_host"].as_bool().unwrap() {
+                    req.headers_mut().insert(http::header::HOST, c["host"].as_str().unwrap().parse().expect("host value"));
+                }
+                futs[r - 1] = Some(Box::pin(Service::call(&mut svc, req)));
+            }
+            "D" => {
+                if futs[r - 1].take().is_some() {
+                    result[r - 1] = Some(("dropped".into(), String::new()));
+                    done_after[r - 1] = k;
+                } else {
+                    // the model says the request is still suspended here, the real one already completed
+                    done_after[r - 1] = -done_after[r - 1];
+                }
+            }
+            "H" => {
+                conn.finish_handshake().await.expect("server handshake");
+                client_stream = Some(client_task.take().unwrap().await.expect("client task").expect("client handshake"));
+            }
+            o => panic!("event {o}"),
+        }
+        // settle: poll every suspended request future until nothing moves
+        loop {
+            tokio::task::yield_now().await;
+            let mut moved = false;
+            for i in 0..n {
+                if let Some(f) = futs[i].as_mut() {
+                    if let Poll::Ready(res) = futures_util::poll!(f.as_mut()) {
+                        futs[i] = None;
+                        moved = true;
+                        done_after[i] = k;
+                        result[i] = Some(match res {
+                            Ok(_) => ("forwarded".into(), String::new()),
+                            Err(SNIMiddlewareError::SNI(e)) => ("rejected".into(), e.to_string()),
+                            Err(e) => ("inner_error".into(), e.to_string()),
+                        });
+                    }
+                }
+            }
+            if !moved {
+                break;
+            }
+        }
+    }
+    drop(futs);
+    drop(client_stream);
+    let log = app.0.lock().unwrap().clone();
+    (0..n)
+        .map(|i| {
+            let (kind, err) = result[i].clone().unwrap_or(("pending".into(), String::new()));
+            let seen = log.get(&format!("r{}", i + 1)).cloned();
+            let kind = match (kind.as_str(), &seen) {
+                ("forwarded", None) => "answered_without_inner".to_string(),
+                ("rejected", Some(_)) => "rejected_after_inner".to_string(),
+                _ => kind,
+            };
+            let (saw_tls, validated, sni_seen) = seen.unwrap_or_default();
+            json!({"kind": kind, "validated": validated, "saw_tls": saw_tls, "sni_seen": sni_seen, "err": err,
+                   "done_after": done_after[i]})
+        })
+        .collect()
+}
+
+fn status_kind_ok(status: &str, kind: &str) -> bool {
+    match status {
+        "dropped" => kind == "dropped",
+        "done_info" | "done_none" => kind != "dropped" && kind != "pending",
+        _ => kind == "pending",
+    }
+}
+
+/// Instantiates a scenario line from TLC into a concrete chain description.
+fn instantiate_chain(line: &Value, rng: &mut StdRng) -> (Value, Vec<Value>) {
+    let scn = &line["scn"];
+    let name = NAMES[rng.gen_range(0..NAMES.len())].to_string();
+    let alt = recase(&name, rng);
+    let oth = other(&name, rng);
+    let ver = scn["ver"].as_str().unwrap();
+    let sni_form = scn["sni"].as_str().unwrap();
+    let sni = if sni_form == "a" { name.clone() } else { String::new() };
+    let mut reqs = vec![];
+    let mut vs = vec![];
+    for cl in scn["cls"].as_array().unwrap() {
+        let port = PORTS[rng.gen_range(0..PORTS.len())];
+        let (form, text): (&str, String) = match cl.as_str().unwrap() {
+            "match" => match rng.gen_range(0..4) {
+                0 => ("a", name.clone()),
+                1 => ("A", alt.clone()),
+                2 => ("a_port", format!("{name}:{port}")),
+                _ => ("A_port", format!("{alt}:{port}")),
+            },
+            "differ" => match rng.gen_range(0..3) {
+                0 | 1 => ("b", oth.clone()),
+                _ => ("v4", V4[rng.gen_range(0..V4.len())].to_string()),
+            },
+            _ => ("none", String::new()),
+        };
+        // where the host is named: HTTP/1.1 -> Host header (an absolute-form URI naming another host must not matter);
+        // HTTP/2 -> authority, or Host header without authority, or authority with a different Host header
+        let (hosthdr, host, auth, authority): (&str, String, &str, String) = if ver == "2" {
+            match (form, rng.gen_range(0..3)) {
+                ("none", _) => ("none", String::new(), "none", String::new()),
+                (_, 0) => ("none", String::new(), form, text.clone()),
+                (_, 1) => (form, text.clone(), "none", String::new()),
+                _ => ("b", oth.clone(), form, text.clone()),
+            }
+        } else if rng.gen_range(0..3) == 0 {
+            (form, text.clone(), "b", oth.clone())
+        } else {
+            (form, text.clone(), "none", String::new())
+        };
+        let path = PATHS[rng.gen_range(0..PATHS.len())];
+        let uri = if auth == "none" { path.to_string() } else { format!("https://{authority}{path}") };
+        reqs.push(json!({"ver": ver, "host": host, "has_host": hosthdr != "none", "uri": uri, "tls": true,
+                         "sni": sni, "has_sni": sni_form == "a", "alpn": "", "name": name, "alt": alt, "other": oth}));
+        vs.push(json!({"ver": ver, "hosthdr": hosthdr, "auth": auth, "sni": if sni_form == "a" { "a" } else { "none" }, "tls": true}));
+    }
+    (json!({"beh": line["beh"], "trace": line["trace"], "sni": sni, "reqs": reqs}), vs)
+}
+
+fn beh_string(beh: &Value) -> String {
+    beh.as_array()
+        .unwrap()
+        .iter()
+        .map(|e| if e["e"] == "H" { "H".to_string() } else { format!("{}{}", e["e"].as_str().unwrap(), e["r"]) })
+        .collect::<Vec<_>>()
+        .join(".")
+}
+
+/// Runs a concrete chain and emits one record per request.
+async fn emit_chain(chain: &Value, vs: &[Value], cfg: &TlsCfg, out: &mut TraceOut, n: &mut usize, conn_id: usize) {
+    let obs = run_chain(chain, cfg).await;
+    let beh = chain["beh"].as_array().unwrap();
+    let trace = chain["trace"].as_array().unwrap();
+    let bs = beh_string(&chain["beh"]);
+    let chain_json = serde_json::to_string(&json!({"chain": chain, "vs": vs})).unwrap();
+    for (i, o) in obs.iter().enumerate() {
+        // what the model expects for this request: final status and the event after which it got there
+        let fin = trace.last().unwrap()[i].as_str().unwrap().to_string();
+        let exp_after = trace
+            .iter()
+            .position(|t| matches!(t[i].as_str().unwrap(), "done_info" | "done_none" | "dropped"))
+            .map(|p| p as i64 + 1)
+            .unwrap_or(0);
+        let done = o["done_after"].as_i64().unwrap();
+        let upto = if done > 0 { done as usize } else { beh.len() };
+        // was a suspended request future of this connection cancelled before this request completed?
+        let after_cancel = beh[..upto].iter().any(|e| e["e"] == "D" && e["r"].as_u64().unwrap() as usize != i + 1);
+        let mut c = chain["reqs"][i].clone();
+        c["mode"] = json!("chain");
+        c["conn"] = json!(conn_id);
+        c["pos"] = json!(i + 1);
+        c["beh"] = json!(bs);
+        c["scn_class"] = json!(if after_cancel { "after-cancelled-wait" } else { "plain" });
+        c["exp_status"] = json!(fin);
+        c["exp_done_after"] = json!(exp_after);
+        c["conforms"] = json!(status_kind_ok(&fin, o["kind"].as_str().unwrap()) && exp_after == done);
+        c["chain_json"] = json!(chain_json);
+        *n += 1;
+        out.emit(&json!({"i": *n, "v": vs[i], "c": c, "o": o}));
+    }
 }
 
 fn read_lines(path: &str) -> Vec<Value> {
@@ -210,12 +524,13 @@ fn read_lines(path: &str) -> Vec<Value> {
         .collect()
 }
 
-fn main() {
+#[tokio::main(flavor = "current_thread", start_paused = true)]
+async fn main() {
     // panics of the code under test are data; keep stderr quiet
     std::panic::set_hook(Box::new(|_| {}));
     let a: Vec<String> = std::env::args().collect();
     if a.len() < 4 {
-        eprintln!("usage: sni gen <vectors> <out> <seed> <spellings> | sni rerun <records> <out>");
+        eprintln!("usage: sni gen <vectors> <out> <seed> <spellings> | sni chain <chain> <out> <seed> <stride> | sni rerun <records> <out>");
         std::process::exit(2);
     }
     let mut out = TraceOut::create(&a[3]);
@@ -236,11 +551,45 @@ fn main() {
                 }
             }
         }
+        "chain" => {
+            let seed: u64 = a[4].parse().unwrap();
+            let stride: usize = a[5].parse::<usize>().unwrap().max(1);
+            let cfg = tls_cfg();
+            let mut rng = StdRng::seed_from_u64(seed ^ 0xC2011);
+            let off = (seed as usize) % stride;
+            let mut conns = 0usize;
+            for (idx, line) in read_lines(&a[2]).iter().enumerate() {
+                if idx % stride != off {
+                    continue;
+                }
+                let (chain, vs) = instantiate_chain(line, &mut rng);
+                conns += 1;
+                emit_chain(&chain, &vs, &cfg, &mut out, &mut n, conns).await;
+            }
+            out.finish();
+            println!("{}", json!({"records": n, "connections": conns}));
+            return;
+        }
         "rerun" => {
+            let mut cfg: Option<TlsCfg> = None;
+            let mut seen_chains: Vec<String> = vec![];
             for r in read_lines(&a[2]) {
-                let o = run(&r["c"]);
-                n += 1;
-                out.emit(&json!({"i": n, "v": r["v"], "c": r["c"], "o": o}));
+                if r["c"]["mode"] == "chain" {
+                    // a chain record stands for its whole connection: replay the connection once
+                    let cj = r["c"]["chain_json"].as_str().unwrap().to_string();
+                    if seen_chains.contains(&cj) {
+                        continue;
+                    }
+                    seen_chains.push(cj.clone());
+                    let parsed: Value = serde_json::from_str(&cj).unwrap();
+                    let vs: Vec<Value> = parsed["vs"].as_array().unwrap().clone();
+                    let cfg = cfg.get_or_insert_with(tls_cfg);
+                    emit_chain(&parsed["chain"], &vs, cfg, &mut out, &mut n, seen_chains.len()).await;
+                } else {
+                    let o = run(&r["c"]);
+                    n += 1;
+                    out.emit(&json!({"i": n, "v": r["v"], "c": r["c"], "o": o}));
+                }
             }
         }
         o => {
